@@ -117,9 +117,9 @@ def finish_full_run(ctx, run):
 			ctx.fail(
 				'property', f'the linter is not silent on the tree: suite {suite["suite"]} reports {suite["failures"]} failure(s): '
 				+ ' | '.join(suite['lines'][:3])[:600], dict(case, suite=suite['suite'], failures=suite['failures'], first=suite['lines'][:5]))
-	for verdict, violations in summaries:
-		if 'SUCCESS' != verdict or violations:
-			ctx.fail('property', f'SUMMARY ({verdict}, {violations} violations) on the unchanged tree', dict(case, summaries=summaries))
+	bad = [(verdict, violations) for verdict, violations in summaries if 'SUCCESS' != verdict or violations]
+	if bad:
+		ctx.fail('property', f'SUMMARY ({bad[0][0]}, {bad[0][1]} violations) printed for the tree', dict(case, summaries=summaries))
 	if 0 != code:
 		tail = stderr.strip().splitlines()[-1] if stderr.strip() else ''
 		ctx.fail('property', f'the CI lint run exits with status {code} on the tree {tail}', dict(case, stderr=stderr[-800:]))
